@@ -3,3 +3,4 @@ import NanoVerif.Props.C11
 import NanoVerif.Props.C12
 import NanoVerif.Props.C13
 import NanoVerif.Props.C14
+import NanoVerif.Props.C15
